@@ -92,19 +92,25 @@ class Config(Bunch, metaclass=NamespaceableMeta):
                 if key[0] != '!' and default_inline_tag:
                     yaml = default_inline_tag + ' { '
                 elif key[0] == '!' and len(key.split(None, 1)) == 2:
-                    # a tag typed in front of the name takes the place of the default one ("!new fooo=1"). It is meant for the value -
-                    # not for the key inside the mapping the option is turned into, where it would be ignored, nor for that mapping
-                    # as a whole, where a !del would remove everything else; only if the value has a tag of its own (a node can
-                    # carry one) does it go in front of the mapping, which holds nothing but this one path, as !new / !notnew do
+                    # a tag typed in front of the name: "!new fooo=1" / "!notnew foo=1" take the place of the default tag. Any other
+                    # tag is meant for the value - not for the key inside the mapping the option is turned into, where it would be
+                    # ignored, nor for that mapping as a whole, where a !del would remove everything else - and the default tag stays
+                    # (a mistyped name is an error whatever is typed in front of it, except !new). If the value has a tag of its own
+                    # (a node can carry one), a merge flag typed in front is given to the generated mapping together with the default
                     tag, key = key.split(None, 1)
                     if tag in ('!new', '!notnew'):
-                        yaml = tag + ' { ' # (these two are about the paths on the way as well)
-                    elif not value.startswith('!'):
-                        value = tag + ' ' + value
-                    elif tag == '!del':
-                        raise ValueError(f'A !del in front of an override whose value has a tag of its own cannot be expressed: {option!r}')
-                    else:
                         yaml = tag + ' { '
+                    else:
+                        if default_inline_tag:
+                            yaml = default_inline_tag + ' { '
+                        if not value.startswith('!'):
+                            value = tag + ' ' + value
+                        else:
+                            flags = { '!force': "'priority': 1", '!weak': "'priority': -1", '!merge': "'delete': False", '!unsafe': "'safe': False",
+                                None: '', '!notnew': ", 'allow_new': False", '!new': ", 'allow_new': True" }
+                            if tag not in flags or tag in ('!new', '!notnew') or (default_inline_tag or None) not in flags:
+                                raise ValueError(f'The tag {tag!r} in front of an override whose value has a tag of its own cannot be expressed: {option!r}')
+                            yaml = '!metadata{{' + flags[tag] + flags[default_inline_tag or None] + '}} { '
 
                 ind = 0
                 for part in key.split('.'):
